@@ -108,6 +108,38 @@ def lagOk (lag : Nat) (ends outEnds : List Nat) (trace : List Ev) : Bool :=
 def lagFirstBad (d la : Nat) (ends outEnds : List Nat) (trace : List Ev) : Option Nat :=
   firstBad (boundsAt d la ends) outEnds 0 0 trace
 
+/-! ## A one-pass acceptor
+
+`firstBad` re-tests every document at every read request.  When both lists are
+nondecreasing, documents are written in order and the earliest bound among the
+unwritten ones is the first: a cursor suffices.  `Lemmas/Stream.lean`
+(`firstBadFast_eq`) proves the two equal on nondecreasing lists; the driver uses
+the fast one exactly then. -/
+
+/-- Drops the leading documents whose translation is complete. -/
+def dropDone (w : Nat) : List Nat → List Nat → List Nat × List Nat
+  | b :: bs, o :: os => if o ≤ w then dropDone w bs os else (b :: bs, o :: os)
+  | bs, os => (bs, os)
+
+def firstBadFast : List Nat → List Nat → Nat → Nat → List Ev → Option Nat
+  | _, _, _, _, [] => none
+  | bs, os, w, i, .wr n :: t => firstBadFast bs os (w + n) (i + 1) t
+  | bs, os, w, i, .rd off _ :: t =>
+    match dropDone w bs os with
+    | (b :: bs', o :: os') => if b ≤ off then some i else firstBadFast (b :: bs') (o :: os') w (i + 1) t
+    | (bs', os') => firstBadFast bs' os' w (i + 1) t
+
+/-- Nondecreasing, tested in one pass. -/
+def sortedB : List Nat → Bool
+  | a :: b :: t => decide (a ≤ b) && sortedB (b :: t)
+  | _ => true
+
+/-- `lagFirstBad` through the one-pass acceptor when the bounds are
+nondecreasing, through the definition otherwise. -/
+def lagFirstBadFast (d la : Nat) (ends outEnds : List Nat) (trace : List Ev) : Option Nat :=
+  if sortedB ends && sortedB outEnds then firstBadFast (boundsAt d la ends) outEnds 0 0 trace
+  else lagFirstBad d la ends outEnds trace
+
 /-- Consecutive writes merged into one (what the harness's logging writer
 records between two reads). -/
 def coalesce : List Ev → List Ev
